@@ -58,6 +58,9 @@ pub fn check_pair(c: &Pair, rec: &mut Rec) -> Result<(), Violation> {
       Err(p) => return Err(f(Violation::new("not", "panic", format!("not({}) panicked: {}; {} = {:?}", name, p, name, s)))),
     };
     let cells = bc::model_cells("not", "not(x)", &r).map_err(|v| f(v))?;
+    if r.get_depth_max() != s.depth_max {
+      return Err(f(Violation::new("not", "wrong_depth_max", format!("not({:?}) has depth_max {} instead of {}", s, r.get_depth_max(), s.depth_max))));
+    }
     let got = mb::to_intervals(r.get_depth_max(), s.depth_max, &cells);
     let want = mb::op_not(&s.intervals(s.depth_max), mb::n_leaves(s.depth_max));
     if r.get_depth_max() != s.depth_max || got != want {
